@@ -163,8 +163,8 @@ class SymVC:
         self.havoc += 1
         return SBits.of([fresh_bit("havoc%d_%d" % (self.havoc, i)) for i in range(n)], endian)
 
-    def nat(self, name, lo=0):
-        """unbounded integer >= lo (state-machine counters)"""
+    def nat(self, name, lo=0, bits=6):
+        """unbounded integer >= lo (state-machine counters; bits: spread of the native random draw only)"""
         from .zint import SZInt
 
         return self._reg(name, SZInt.fresh(name, lo))
@@ -306,6 +306,15 @@ class SymVC:
         w = {k: _jsonable(api.concretise(v, env)) for k, v in self.inputs.items()}
         if self.havoc:
             w["__havoc__"] = True
+        r = getattr(self, "realise", None)
+        if r is not None:
+            # a contract whose proof ran on an abstract intermediate state (ghost) turns the counter-model of that state into
+            # inputs that produce it; None: no such inputs found - the refutation is then reported without a failing input
+            w2 = r(dict(w))
+            if w2 is None:
+                w["__havoc__"] = True
+            else:
+                w = w2
         return w
 
     def path_model(self):
@@ -467,10 +476,10 @@ class NativeVC:
         self.drawn[name] = v
         return v
 
-    def nat(self, name, lo=0):
+    def nat(self, name, lo=0, bits=6):
         if name in self.w:
             return int(self.w[name])
-        v = lo + (self._draw(name, 6) if self.rnd else 0)
+        v = lo + (self._draw(name, bits) if self.rnd else 0)
         self.drawn[name] = v
         return v
 
